@@ -214,7 +214,30 @@ class Layouts:
 
     def _add(self, key, lay):
         cur = self.state.get(key, UNKNOWN)
-        self.state[key] = UNKNOWN if (cur is UNKNOWN or lay is UNKNOWN) else cur + lay
+        self.state[key] = UNKNOWN if (cur is UNKNOWN or lay is UNKNOWN) else self._fuse(cur + lay)
+
+    @staticmethod
+    def _fuse(lay):
+        """Head / tail spelling of one traversal:  f(X[0])  followed by  f(v) for v in X[1:]   is   f(v) for v in X
+        (for a non-empty X, which the head already assumes)."""
+        import re
+        out = list(lay)
+        i = 0
+        while i + 1 < len(out):
+            a, b = out[i], out[i + 1]
+            if b[0] in ("each", "flat") and b[1][0] == "iter" and b[1][1].endswith("[1:]"):
+                X = b[1][1][:-4]
+                var = "va0"
+                sub = lambda txt: re.sub(r"\bva0\b", f"{X}[0]", txt)
+                if b[0] == "each":
+                    head = (("item", sub(b[2])),)
+                else:
+                    head = tuple((p_[0], sub(p_[1])) if p_[0] in ("item", "splice") and isinstance(p_[1], str) else None for p_ in b[2])
+                if None not in head and len(head) == 1 and a == head[0]:
+                    out[i:i + 2] = [(b[0], ("iter", X)) + tuple(b[2:])]
+                    continue
+            i += 1
+        return tuple(out)
 
     def _looks_list(self, v):
         if isinstance(v, ast.IfExp):
@@ -303,6 +326,14 @@ class Layouts:
                 eff = self._effect(n.value, n, env2, depth + 1)
                 if eff is not None:
                     add(eff[0], eff[1])
+            elif isinstance(n, ast.AugAssign) and isinstance(n.op, ast.Add) and self._key(n.target) is not None:
+                # X += e inside the loop: the elements of e, like X.extend(e)
+                add(self._key(n.target), self.layout_of(n.value, n, env2, depth + 1))
+            elif isinstance(n, (ast.Assign, ast.AugAssign)) and any(self._key(t) in self.state for t in (
+                    n.targets if isinstance(n, ast.Assign) else [n.target])):
+                for t in (n.targets if isinstance(n, ast.Assign) else [n.target]):
+                    if self._key(t) in self.state:
+                        per_key[self._key(t)] = UNKNOWN          # re-bound inside a loop: not followed
             elif isinstance(n, ast.For) and not n.orelse:
                 for key, lay in self._loop_layouts(n, env2, depth + 1).items():
                     add(key, lay)
